@@ -34,7 +34,7 @@ CHECKS.update({
 CHECKS.update({
  "C12": dict(cat="proof", design="8/C12", tech="loop-invariant VCs from the real AST of OutputVariable.defuzzify over batches of symbolic length (index-function arrays, ghost fill/pprev), induction lemma cascade.base/step; z3",
    text="OutputVariable.defuzzify is verified for defuzzified sequences of ANY length n >= 1 (a float is n = 1) and every setting: the np.nditer fill-forward loop (invariant over the row index), the masked default substitution, the clipping value setter; every row equals commit(fill) and by the induction lemma (base, step, commit idempotent) equals the sequential per-row `step` on the committed value, hence any split into calls/batches gives the same values; previous_value is the last value held before the call; a disabled variable is untouched; on ValueError (no defuzzifier) or a failing defuzzifier value, previous value and fuzzy output are unchanged; the defuzzifier receives (fuzzy, minimum, maximum). clear() resets value, previous value and fuzzy output. A bounded run-time stand-in (B) replays sequences x splits x 12 settings x failures x clear().",
-   note=A_WIRE + " A-KIND: the defuzzifier is assumed to return an ndarray (np.nditer and item assignment need one); that kind clause is checked per concrete defuzzifier under C09/C10/C02, where the pinned tree has a known defect for weighted defuzzifiers."),
+   note=A_WIRE + " The defuzzifier may return a numpy.float64 or an ndarray: the two static `kind` obligations check that the value passes through scalar()/np.asarray before np.nditer and the masked assignment (the pinned tree failed them - genuine defect repaired by fix commit 95f5e5a)."),
 })
 CHECKS.update({
  "C20": dict(cat="proof", design="8/C20", tech="symbolic execution of the real AST of Settings.context over a finite key universe with symbolic values/None-ness, arbitrary with-body, normal and exceptional exits; z3; static read-at-call-time scan",
